@@ -55,7 +55,7 @@ SIMPLE = {
     'select2': Q('SELECT 2'), 'sleep': Q('SELECT pg_sleep(1)'), 'qt1': Q('SELECT * FROM t1'), 'qt2': Q('SELECT * FROM t2'), 'd': msg('d', b'1\n'), 'c': msg('c'), 'f': msg('f', b'stop\0'), 'multi': Q('BEGIN; SELECT 1'), 'sync': S, 'flush': H,
     # replies around the 8 KiB relay threshold (see MockPg.big_rows), alone, in a multi-statement message, after a COPY in the same message
     'bigsel': Q('SELECT bigrows'), 'hugesel': Q('SELECT hugerow'), 'multibig': Q('SELECT 1; SELECT hugerow; SELECT 2'),
-    'die': Q('SELECT die'), 'copyin_big': Q('COPY t FROM STDIN; SELECT bigrows'), 'copyin_sel': Q('COPY t FROM STDIN; SELECT 7'),
+    'die': Q('SELECT die'), 'mktable': Q('CREATE TABLE notyet (a int)'), 'copyin_big': Q('COPY t FROM STDIN; SELECT bigrows'), 'copyin_sel': Q('COPY t FROM STDIN; SELECT 7'),
 }
 
 
@@ -111,6 +111,7 @@ EXT = {'P?': sym_parse, 'B?': sym_bind, 'D?': sym_describe, 'C?': sym_close, 'E'
        'Pset': lambda: conc_msg('Pset', P('', 'SET statement_timeout TO 5')),
        'Pbig': lambda: conc_msg('Pbig', P('', 'SELECT bigrows')), 'Phuge': lambda: conc_msg('Phuge', P('', 'SELECT hugerow')),
        'P': lambda: conc_msg('P', P('', 'SELECT 1')), 'P2': lambda: conc_msg('P2', P('', 'SELECT 2')),
+       'Pny': lambda: conc_msg('Pny', P('s1', 'SELECT * FROM notyet')), 'Pny2': lambda: conc_msg('Pny2', P('s2', 'SELECT * FROM notyet')),
        'Ps3': lambda: conc_msg('Ps3', P('s3', 'SELECT 4')), 'Bs3': lambda: conc_msg('Bs3', B('', 's3')),
        'Ps1b': lambda: conc_msg('Ps1b', P('s1', 'SELECT 3')), 'Ps2': lambda: conc_msg('Ps2', P('s2', 'SELECT 2')), 'Cs2': lambda: conc_msg('Cs2', C('S', 's2')),
        'Pst1': lambda: conc_msg('Pst1', P('s1', 'SELECT * FROM t1')), 'Pst2': lambda: conc_msg('Pst2', P('s2', 'SELECT * FROM t2')), 'Bs2': lambda: conc_msg('Bs2', B('', 's2')),
@@ -919,7 +920,9 @@ def c08_reference(data, script, dec, cache_size=None):
     V = []
     stmts, portals, expected = {}, {}, []
     valid = True
+    align = True            # (which result row belongs to which statement is only decided for programs of plain SELECTs)
     batch_names, widest = set(), 0
+    bound_in_batch, rebound = {}, False
     for m in script:
         cm = HE.conc(m)
         if cm is None:
@@ -928,17 +931,21 @@ def c08_reference(data, script, dec, cache_size=None):
         if c == b'S':
             widest = max(widest, len(batch_names))
             batch_names = set()
+            bound_in_batch = {}
         if c == b'P':
             name, sql, _ = body.split(b'\0', 2)
+            if name and name in bound_in_batch and bound_in_batch[name] != sql:
+                rebound = True      # the name was bound earlier in this batch with another text: two versions of one name in one batch
             stmts[name] = sql
             if name:
-                batch_names.add(name)
+                batch_names.add((name, sql))
         elif c == b'B':
             portal, name, _ = body.split(b'\0', 2)
             if name not in stmts:
                 valid = False
             if name:
-                batch_names.add(name)
+                batch_names.add((name, stmts.get(name)))
+                bound_in_batch.setdefault(name, stmts.get(name))
             portals[portal] = name
         elif c == b'D' and body[:1] == b'S':
             if body[1:].split(b'\0', 1)[0] not in stmts:
@@ -947,8 +954,8 @@ def c08_reference(data, script, dec, cache_size=None):
             sql = stmts.get(portals.get(body.split(b'\0', 1)[0]))
             if sql is None:
                 continue        # (an Execute of a statement this client never prepared: see `valid`)
-            if not sql.upper().startswith(b'SELECT') or b'1/0' in sql:
-                return V        # alignment of rows is only decided for plain SELECTs
+            if not sql.upper().startswith(b'SELECT') or b'1/0' in sql or b'notyet' in sql.lower():
+                align = False
             expected.append(sql)
         elif c == b'C' and body[:1] == b'S':
             stmts.pop(body[1:].split(b'\0', 1)[0], None)
@@ -957,26 +964,28 @@ def c08_reference(data, script, dec, cache_size=None):
             if t.upper().startswith(b'SELECT') and b'1/0' not in t and b';' not in t:
                 expected.append(t)
             elif t.upper() not in (b'BEGIN', b'COMMIT', b'ROLLBACK'):
-                return V
+                align = False
     out_msgs, _ = HE.split_messages(data['client_out'], 'bytes written to the client')
     rows = []
+    missing = []
     for m in out_msgs:
         cm = HE.conc(m)
         if cm is None:
             continue
         if cm[:1] == b'D' and len(cm) == 5 + 2 + 4 + 8:
             rows.append(cm[-2:])
+        if cm[:1] == b'E' and b'C26000' in cm and b'VFATAL' not in cm and valid and not missing:
+            # classified by input class: one batch that uses more distinct named statements than the server-side cache holds
+            cls = 'batch-exceeds-cache' if (cache_size is not None and widest > cache_size) else ('rebound-name-in-batch' if rebound else 'other')
+            missing.append(('C08', 'H/statement-missing-on-server/' + cls, 'the client\'s valid program is answered "prepared statement does not exist" by a server '
+                            '(largest batch uses %d distinct named statement versions, statement cache size %s)' % (widest, cache_size)))
+    V += missing
     if valid and data['outcome'] == ('done', 'Err') and data.get('client_read') is not None and not data.get('client_write_failed') \
             and data['client_read'] < sum(len(m) for m in script):
         V.append(('C08', 'H/valid-program-rejected', 'the pooler ends the session of a client whose program is valid (every Bind/Describe names a statement the client has prepared and not closed)'))
     if not valid and rows and not expected:
         V.append(('C08', 'H/foreign-statement-executed', 'the client bound a statement name it never prepared and got a result row: a statement of another client was executed for it'))
-        if cm[:1] == b'E' and b'C26000' in cm and b'VFATAL' not in cm and valid:
-            # classified by input class: one batch that uses more distinct named statements than the server-side cache holds
-            cls = 'batch-exceeds-cache' if (cache_size is not None and widest > cache_size) else 'other'
-            V.append(('C08', 'H/statement-missing-on-server/' + cls, 'the client\'s valid program is answered "prepared statement does not exist" by a server '
-                      '(largest batch uses %d distinct named statements, statement cache size %s)' % (widest, cache_size)))
-    for k, (sql, got) in enumerate(zip(expected, rows)):
+    for k, (sql, got) in enumerate(zip(expected, rows) if align else ()):
         want = b'%02x' % hashlib.sha256(sql).digest()[0]
         if got != want:
             V.append(('C08', 'H/wrong-statement-executed', 'result %d of the session was produced by a statement other than %r, which the client had prepared for it' % (k, sql)))
